@@ -19,7 +19,7 @@ GEN = ["leaf"]
 PROPS_MOD = "VncModel.Props.C17"
 EXTRA_TARGETS = ["drv_c17"]
 
-FMTS = ["8m", "8", "16", "32"]
+FMTS = ["8m", "8", "16", "24", "32"]
 DIMS = [1, 2, 3, 4, 5, 6, 7, 8, 9, 10, 11, 12, 13, 16, 17, 19, 20, 23, 24, 29, 31, 32, 37, 41, 43, 47,
         49, 53, 59, 61, 64, 98, 103, 107]
 # sizes with common divisors (factors dividing both dimensions) and rounding-sensitive widths
@@ -171,6 +171,20 @@ class Gen:
         for c in self.cl.values():
             c["dirty"] = True
 
+    def copy(self):
+        """rfbDoCopyRect: destination and source inside the screen"""
+        rng, W, H = self.rng, self.W, self.H
+        w = rng.randint(1, W); h = rng.randint(1, H)
+        x = rng.randint(0, W - w); y = rng.randint(0, H - h)
+        sx = rng.randint(0, W - w); sy = rng.randint(0, H - h)
+        if rng.random() < 0.3:
+            sy = y                      # horizontal scroll
+        elif rng.random() < 0.3:
+            sx = x                      # vertical scroll
+        self.emit("copy %d %d %d %d %d %d" % (x, y, w, h, x - sx, y - sy))
+        for c in self.cl.values():
+            c["dirty"] = True
+
     def ptr1(self, i, mask):
         rng, c = self.rng, self.cl[i]
         tw, th = c["tw"], c["th"]
@@ -242,7 +256,10 @@ class Gen:
             self.scale(i)
         elif r < 0.46:
             for _ in range(rng.choice([1, 1, 1, 2, 3])):
-                self.draw()
+                if rng.random() < 0.2:
+                    self.copy()
+                else:
+                    self.draw()
             who = ids if rng.random() < 0.7 else [j for j in ids if rng.random() < 0.5]
             for j in who:
                 self.full_req(j, 1)
@@ -254,7 +271,10 @@ class Gen:
             tw, th = c["tw"], c["th"]
             if rng.random() < 0.12:   # odd request: partly or entirely outside the told size
                 x = rng.choice([tw, tw - 1, tw + 3, 0, 65535]); y = rng.choice([0, th, th - 1, 65535])
-                w = rng.choice([1, tw, tw + 5, 65535]); h = rng.choice([1, th, th + 5, 65535])
+                w = rng.choice([0, 1, tw, tw + 5, 65535]); h = rng.choice([0, 1, th, th + 5, 65535])
+                if rng.random() < 0.4:      # zero-sized request inside the told size
+                    x, y = rng.randrange(tw), rng.randrange(th)
+                    w, h = rng.choice([(0, 0), (0, rng.randint(1, th - y)), (rng.randint(1, tw - x), 0)])
                 self.emit("req %d %d %d %d %d %d" % (i, rng.randint(0, 1), max(0, x), max(0, y), w, h))
                 c["synced"] = False
             else:
@@ -275,7 +295,10 @@ class Gen:
                 self.emit("geom")
         elif r < 0.88:
             if len(ids) > 1 or rng.random() < 0.3:
-                self.emit("leave %d" % i)
+                if rng.random() < 0.25:
+                    self.emit("scalecut %d %s" % (i, rng.choice("up")))
+                else:
+                    self.emit("leave %d" % i)
                 del self.cl[i]
                 self.emit("geom")
         elif r < 0.94:
@@ -360,7 +383,7 @@ def oracle(script, impl):
             W, H = int(t[1]), int(t[2])
         elif t[0] == "client":
             dims[int(t[1])] = (W, H)
-        elif t[0] == "leave":
+        elif t[0] in ("leave", "scalecut"):
             dims.pop(int(t[1]), None)
             pend.pop(int(t[1]), None)
             lastmask.pop(int(t[1]), None)
@@ -649,7 +672,7 @@ def run(ctx):
     return {
         "evaluations": evals, "distinct_nontrivial": len(nontrivial),
         "rule": "scripted sessions (1-3 clients, screen sizes incl. primes / 1xN / rounding-sensitive widths 49,98,103,107, "
-                "4 pixel formats, both SetScale variants, factors 0..255); non-trivial = distinct script with a scale "
+                "5 pixel formats (8 colour-mapped, 8, 16, 24, 32 bpp), both SetScale variants, factors 0..255); non-trivial = distinct script with a scale "
                 "change and at least one 'sure' picture comparison (client requested everything, picture compared "
                 "pixel by pixel with the reference box filter)",
         "samples": samples, "distribution": dist, "failures": fails,
